@@ -27,6 +27,7 @@ type IterObj struct {
 	First  string
 	Cond   string // condition under which the iterator is valid (List succeeded)
 	IdxFields []*TField
+	OrderField *TField          // first index field after the equality prefix: rows come in its order
 	MatchSig  string            // syntactic signature of the membership predicate
 	Psum      map[string]string // ghost-sum component -> prefix-sum function  psum(gkey, i) = sum of the terms of rows 0..i-1 with that ghost key
 }
@@ -69,6 +70,25 @@ func (x *Exec) iterStatic(st *State, fr *frame, fn *ssa.Function, args []Val, k 
 			return false
 		}
 		ik := IndexKey{Table: t.Name}
+		// the full field list of the index: the parameters of its longest With... method
+		ms := types.NewMethodSet(rt)
+		best := 0
+		for i := 0; i < ms.Len(); i++ {
+			m := ms.At(i).Obj().(*types.Func)
+			if !strings.HasPrefix(m.Name(), "With") {
+				continue
+			}
+			sig := m.Type().(*types.Signature)
+			if sig.Params().Len() > best {
+				best = sig.Params().Len()
+				ik.All = nil
+				for j := 0; j < sig.Params().Len(); j++ {
+					if f := findField(t.Fields, sig.Params().At(j).Name()); f != nil {
+						ik.All = append(ik.All, f.Go)
+					}
+				}
+			}
+		}
 		for i, p := range fn.Params[1:] {
 			f := findField(t.Fields, p.Name())
 			if f == nil {
@@ -176,12 +196,18 @@ func (x *Exec) fieldsOf(t *Table, names []string) []*TField {
 
 // matcher builds the membership predicate for List (prefix) or ListRange / DeleteRange (from,to).
 func (x *Exec) matcher(st *State, t *Table, m string, args []Val) (func(st *State, key string) string, []*TField) {
+	x.lastOrderField = nil
 	if m == "List" || m == "DeleteBy" {
 		ik, ok := unwrapIndexKey(args[0])
 		if !ok {
 			subsetf("ORM %s.%s with an unknown index key", t.Name, m)
 		}
 		fs := x.fieldsOf(t, ik.Fields)
+		if len(ik.All) > len(ik.Fields) {
+			if of := x.fieldsOf(t, ik.All[len(ik.Fields):len(ik.Fields)+1]); len(of) == 1 {
+				x.lastOrderField = of[0]
+			}
+		}
 		var vals []string
 		for _, v := range ik.Vals {
 			vals = append(vals, x.idxValTerm(st, v))
@@ -215,7 +241,7 @@ func (x *Exec) ormList(st *State, fr *frame, t *Table, m string, args []Val, k f
 	eid := s.freshErrID()
 	n := s.declare(s.fresh("iter.n"), "Int")
 	s.fact("(>= " + n + " 0)")
-	it := &IterObj{Table: t, Name: s.fresh("iter:" + t.Name), N: n, Match: match, Writes: st.wcount[t.Name], Cond: not(io), IdxFields: fs,
+	it := &IterObj{Table: t, Name: s.fresh("iter:" + t.Name), N: n, Match: match, Writes: st.wcount[t.Name], Cond: not(io), IdxFields: fs, OrderField: x.lastOrderField,
 		MatchSig: match(st, "k!sig"), Psum: map[string]string{}}
 	st.iters[it] = &IterState{Pos: "(- 1)"}
 	for _, g := range s.Spec.GhostSums {
@@ -299,8 +325,21 @@ func (x *Exec) iterValue(st *State, fr *frame, it *IterObj, k func(st *State, v 
 	k(st, Rec{F: []Val{Ptr{Loc: obj, Nil: "false"}, Err{ite(io, eid, "0"), ite(io, eid, "0")}}})
 }
 
-// iterOrderFacts is extended by properties that need ordering (C11); default: none.
-func (x *Exec) iterOrderFacts(st *State, it *IterObj, is *IterState, key string) {}
+// iterOrderFacts: the row at position 0 of a prefix scan is minimal in the first index field after
+// the prefix (assumed ORM contract: rows are returned in index order; timestamps compare as
+// (seconds, nanos), nil as (0,0)).
+func (x *Exec) iterOrderFacts(st *State, it *IterObj, is *IterState, key string) {
+	if it.OrderField == nil {
+		return
+	}
+	s := x.s
+	t := it.Table
+	ksort := keySortOf(len(t.PK))
+	hasArr := s.comp(st, t.Name+".has")
+	first := eq(is.Pos, "0")
+	st.assume(implies(first, fmt.Sprintf("(forall ((k!q %s)) (! (=> (and (select %s k!q) %s) (<= %s %s)) :pattern ((select %s k!q))))",
+		ksort, hasArr, it.Match(st, "k!q"), x.idxFieldTerm(st, t, it.OrderField, key), x.idxFieldTerm(st, t, it.OrderField, "k!q"), hasArr)))
+}
 
 func (x *Exec) havocIter(st *State, it *IterObj, is *IterState) {
 	s := x.s
